@@ -74,6 +74,21 @@ func maglevScenario() scenario {
 	}}
 }
 
+// idWrapScenario: the id counter (uint32) stands at 2^32-1, as after 2^32-1 allocations; the next two new services get
+// 2^32-1 and, after the wrap, 0 - the id service 0 still holds.
+func idWrapScenario() scenario {
+	mk := func(n int) svcSpec { return svcSpec{name: n, cip: u32ip(10, 96, 0, n+1), port: 80, proto: 6} }
+	e := func(k int) epSpec { return mkEp(u32ip(10, 1, 1, k), 8000, true) }
+	s0 := svcState{svc: mk(0), eps: []epSpec{e(1)}}
+	s1 := svcState{svc: mk(1), eps: []epSpec{e(2)}}
+	s2 := svcState{svc: mk(2), eps: []epSpec{e(3), e(4)}}
+	return scenario{npips: []uint32{hostIP}, tags: []string{"scripted:id-wrap"}, steps: []step{
+		{state: []svcState{s0}},
+		{state: []svcState{s0, s1, s2}, setNext: 0xffffffff},
+		{state: []svcState{s0, s1, s2}},
+	}}
+}
+
 func scripted() []scenario {
 	cip := u32ip(10, 96, 0, 1)
 	e1, e2, e3 := mkEp(u32ip(10, 1, 1, 1), 8000, true), mkEp(u32ip(10, 1, 0, 1), 8000, true), mkEp(u32ip(10, 1, 2, 1), 8000, true)
@@ -91,7 +106,7 @@ func scripted() []scenario {
 		{state: []svcState{{svc: s2, eps: []epSpec{e2}}}},
 		{state: nil},
 	}}
-	return []scenario{basic, staleIDScenario(), maglevScenario()}
+	return []scenario{basic, staleIDScenario(), maglevScenario(), idWrapScenario()}
 }
 
 // probeReset reports whether the tree under test forgets the service ids adopted by a failed first
